@@ -13,6 +13,7 @@ import GraphiqModel.Proofs.StateToGraphHilbert
 import GraphiqModel.Proofs.StateToGraphGaugeIndep
 import GraphiqModel.Proofs.StateToGraphTableau
 import GraphiqModel.Proofs.StateToGraphPairMatrix
+import GraphiqModel.Proofs.StateToGraphSpectrum
 import GraphiqModel.Proofs.GraphStateGroup
 namespace Graphiq.C08
 open Graphiq Graphiq.PRow Graphiq.Tab Graphiq.STab
@@ -491,12 +492,12 @@ theorem state_to_graph_correct_hilbert (t : STab) (hn : 0 < t.n) (hstate : IsSta
     `negativity` is the graph state of the induced pair; `project_and_remove` is modelled as a map on `2ⁿ × 2ⁿ` complex matrices
     (`projOff` = `⊗_{k∉{i,j}} |0⟩⟨0|`, division by the trace — which is `4/2ⁿ ≠ 0`, so the `1 − P₀` branch of the code is never taken —,
     `ptraceOff` = sum over the basis states of the traced qubits);
-  * the two possible states as exact 4×4 rational matrices and their negativities 0 and 1/2 (`density_to_graph_pair_negativity`,
+  * the two possible states as exact 4×4 rational matrices, the eigenvalues of their partial transposes (roots of the characteristic
+    polynomial) and the negativities `Σ(|λ| − λ)/2` = 0 and 1/2 (`density_to_graph_pair_spectrum`, `density_to_graph_pair_negativity`,
     `density_to_graph_edge_rule_partial`).
   NOT proved (so the full statement `density_to_graph(|G⟩⟨G|) = G` is not a theorem): that the numpy code of `project_and_remove` /
-  `partial_trace` / `bipartite_partial_transpose` computes these maps (read off the source, compared numerically per input), the
-  uniqueness of the Jordan decomposition (negativity `Σ(|λ| − λ)/2` = trace of the negative part — textbook), the float eigenvalues, the
-  purity test and the closing `np.allclose`.  The harness compares `project_and_remove` and `negativity` of every pair of every graph on
+  `partial_trace` / `bipartite_partial_transpose` computes these maps (read off the source, compared numerically per input), that
+  LAPACK's `eigh` returns the exact eigenvalues to within the margin 0.1 … 0.5, the purity test and the closing `np.allclose`.  The harness compares `project_and_remove` and `negativity` of every pair of every graph on
   ≤ 5 vertices with the two states below (1e-9). -/
 
 /-- **which two-qubit state the code looks at** (every n, every simple graph, every pair `i ≠ j`; group level): the restrictions to
@@ -541,33 +542,39 @@ theorem density_to_graph_project_and_remove (n : Nat) (adj : Adj) (hsym : ∀ i 
   rw [← rho_graphSTab n adj hsym hirr]
   exact projectAndRemove_graph n adj hsym hirr i j hij hj
 
+/-- **eigenvalues of the two partial transposes** (roots of the characteristic polynomial with multiplicity, by explicit rational
+    diagonalisation) and the negativity `Σ (|λ| − λ)/2` that `dmf.negativity` computes from them: `{1,0,0,0}` → 0 and
+    `{−1/2,1/2,1/2,1/2}` → 1/2 -/
+theorem density_to_graph_pair_spectrum :
+    ((Neg.ptA Neg.rhoPlus).charpoly.roots = {1, 0, 0, 0} ∧ Neg.negativityOf (Neg.ptA Neg.rhoPlus).charpoly.roots = 0) ∧
+    ((Neg.ptA Neg.rhoEdge).charpoly.roots = {-1/2, 1/2, 1/2, 1/2} ∧ Neg.negativityOf (Neg.ptA Neg.rhoEdge).charpoly.roots = 1/2) :=
+  ⟨Neg.spectrum_plus, Neg.spectrum_edge⟩
+
 /-- **the edge rule, assembled** (every n, every simple graph, `i < j < n`): entry by entry the matrix handed to `negativity` is the
-    exact rational matrix `M = rhoEdge` (if `adj i j`) resp. `rhoPlus` (index `2·b₀ + b₁`), and the partial transpose of `M` has a Jordan
-    decomposition whose negative part has trace `1/2` resp. `0` — above resp. below the threshold 0.1, i.e. the code's test
+    exact rational matrix `M = rhoEdge` (if `adj i j`) resp. `rhoPlus` (index `2·b₀ + b₁`), and the negativity of `M` — `Σ (|λ| − λ)/2`
+    over the eigenvalues of its partial transpose — is `1/2` resp. `0`: above resp. below the threshold 0.1, i.e. the code's test
     `negativity > threshold` holds exactly for the edges of `G`.
-    Missing for `density_to_graph(|G⟩⟨G|) = G`: see the section comment (numpy code ↔ these maps, Jordan uniqueness, float eigenvalues). -/
+    Missing for `density_to_graph(|G⟩⟨G|) = G`: see the section comment (numpy code ↔ these maps, float eigenvalues, purity test). -/
 theorem density_to_graph_edge_rule_partial (n : Nat) (adj : Adj) (hsym : ∀ i j, i < n → j < n → adj i j = adj j i)
     (hirr : ∀ i, i < n → adj i i = false) (i j : Nat) (hij : i < j) (hj : j < n) :
-    ∃ (M P N : Neg.M4),
+    ∃ M : Neg.M4,
       (∀ a b, projectAndRemove n i j (graphStateMat n adj) a b = ((M (idx2 a) (idx2 b) : ℚ) : ℂ)) ∧
-      Neg.Jordan (Neg.ptA M) P N ∧
-      Matrix.trace N = (if adj i j then 1/2 else 0) ∧
-      ((1/10 : ℚ) < Matrix.trace N ↔ adj i j = true) := by
+      Neg.negativityOf (Neg.ptA M).charpoly.roots = (if adj i j then 1/2 else 0) ∧
+      ((1/10 : ℚ) < Neg.negativityOf (Neg.ptA M).charpoly.roots ↔ adj i j = true) := by
   have h := (density_to_graph_project_and_remove n adj hsym hirr i j hij hj).2
   cases he : adj i j
-  · refine ⟨Neg.rhoPlus, Neg.rhoPlus, 0, fun a b => ?_, Neg.negativity_plus.1, by simp, by simp⟩
+  · refine ⟨Neg.rhoPlus, fun a b => ?_, by simp [Neg.spectrum_plus.2], by rw [Neg.spectrum_plus.2]; norm_num⟩
     rw [h, he]; exact rho2_entries false a b
-  · refine ⟨Neg.rhoEdge, Neg.posPart, Neg.negPart, fun a b => ?_, Neg.negativity_edge.1, by simp [Neg.negativity_edge.2], ?_⟩
-    · rw [h, he]; exact rho2_entries true a b
-    · rw [Neg.negativity_edge.2]; norm_num
+  · refine ⟨Neg.rhoEdge, fun a b => ?_, by simp [Neg.spectrum_edge.2], by rw [Neg.spectrum_edge.2]; norm_num⟩
+    rw [h, he]; exact rho2_entries true a b
 
 /-- non-vacuity of the two Hilbert-space density theorems: the triangle, pair `(0, 2)` -/
 example : Matrix.trace (projOff 3 0 2 * graphStateMat 3 tri * projOff 3 0 2) = (1 / 2 : ℂ) ^ 3 * 4 :=
   (density_to_graph_project_and_remove 3 tri tri_symm (by decide) 0 2 (by decide) (by decide)).1
 
 /- Not theorems of this development (kept visible): (1) the density-matrix side beyond the theorems above (that the numpy code of
-   `project_and_remove` / `partial_trace` / `bipartite_partial_transpose` computes the modelled maps, uniqueness of the Jordan
-   decomposition, float eigenvalues, purity test, the closing `np.allclose` validation) — compared numerically per input; (2) the
+   `project_and_remove` / `partial_trace` / `bipartite_partial_transpose` computes the modelled maps, float eigenvalues, purity test,
+   the closing `np.allclose` validation) — compared numerically per input; (2) the
    correspondence of the model with the Python source — exact comparison (graph, gate list, error class) on every generated input, not a
    proof.  No float step is left in `state_to_graph` since /repo 70adac4 (`_gf2_inverse`); completeness was false before the repairs
    86ab4f1 (D40), 8a43724 (D49) and 70adac4 (D51). -/
